@@ -8,7 +8,7 @@ from harness import nswire
 from harness.common import MachineryError, corpus_cases, lean_int, lean_list, lean_str, wl
 
 PID = 'C10'
-MODULES = ['NoteSeqVerif.Props.C10', 'NoteSeqVerif.Props.C10Events', 'NoteSeqVerif.Props.C10Heap']
+MODULES = ['NoteSeqVerif.Props.C10', 'NoteSeqVerif.Props.C10Events', 'NoteSeqVerif.Props.C10Heap', 'NoteSeqVerif.Props.C10World']
 EXE = 'drv_c10'
 THEOREMS = [
     ('NoteSeqVerif.Props.C10', 'NSV.C10.' + t) for t in [
@@ -32,7 +32,11 @@ THEOREMS = [
     ('NoteSeqVerif.Props.C10Heap', 'NSV.C10.' + t) for t in [
         'heap_transpose_frame', 'heap_squash_frame', 'heap_transpose_self', 'heap_squash_self', 'heap_deepcopy', 'heap_no_object',
         'deepcopy_then_transpose_copy', 'deepcopy_then_transpose_original', 'deepcopy_then_transpose_both',
-        'deepcopy_then_squash_copy', 'hTrace_last', 'deepcopy_then_transpose_moved']]
+        'deepcopy_then_squash_copy', 'hTrace_last', 'deepcopy_then_transpose_moved']] + [
+    # the caller's Python lists: constructors copy, no operation rewrites a list, two objects from one list are independent
+    ('NoteSeqVerif.Props.C10World', 'NSV.C10.' + t) for t in [
+        'world_step_lists', 'world_lists_invariant', 'world_build', 'built_after_history',
+        'build_twice_transpose_one', 'build_twice_transpose_both']]
 
 STEPS = 'ABCDEFG'
 
@@ -364,8 +368,27 @@ def mel_args(k, mn, mx, dflt):
     return (k,) if dflt else (k, mn, mx)
 
 
+class CallerLists:
+    """the Python lists handed to the constructors by run_melody / run_squash / run_cp / run_ls: the caller's lists.
+    They must hold afterwards what they held when they were handed over (checked by the oracles via `rewritten()`)."""
+    last = []
+
+    @classmethod
+    def give(cls, *values):
+        cls.last = [(list(v), list(v)) for v in values]
+        return [mine for _, mine in cls.last]
+
+    @classmethod
+    def rewritten(cls):
+        for orig, mine in cls.last:
+            if orig != mine:
+                return 'the caller\'s Python list the object was constructed from was rewritten: %r -> %r' % (orig, mine)
+        return None
+
+
 def run_melody(ml, events, k, mn, mx, dflt=False):
-    m = ml.Melody(list(events))
+    src, = CallerLists.give(events)
+    m = ml.Melody(src)
     m.transpose(*mel_args(k, mn, mx, dflt))
     return [int(e) for e in m]
 
@@ -375,6 +398,8 @@ def oracle_mel(ml, events, k, mn, mx, dflt=False):
         return None
     try:
         out = run_melody(ml, events, k, mn, mx, dflt)
+        if CallerLists.rewritten():
+            return CallerLists.rewritten()
         if len(out) != len(events):
             return 'melody length changed'
         for a, b in zip(events, out):
@@ -403,7 +428,8 @@ def oracle_mel(ml, events, k, mn, mx, dflt=False):
 
 
 def run_squash(ml, events, mn, mx, key):
-    m = ml.Melody(list(events))
+    src, = CallerLists.give(events)
+    m = ml.Melody(src)
     a = m.squash(mn, mx, key)
     return int(a), [int(e) for e in m]
 
@@ -414,6 +440,8 @@ def oracle_squash(ml, events, mn, mx, key):
     try:
         mk = int(ml.Melody(list(events)).get_major_key())
         a, out = run_squash(ml, events, mn, mx, key)
+        if CallerLists.rewritten():
+            return CallerLists.rewritten()
         pitched = [e for e in events if e >= 0]
         if key is None:
             if a != 0:
@@ -434,7 +462,8 @@ def oracle_squash(ml, events, mn, mx, key):
 
 
 def run_cp(cl, csl, figs, k):
-    cp = cl.ChordProgression(list(figs))
+    src, = CallerLists.give(figs)
+    cp = cl.ChordProgression(src)
     try:
         cp.transpose(k)
         st = 'ok'
@@ -471,7 +500,7 @@ def oracle_figs(csl, figs, out, k, st, what='transposed'):
 def oracle_cp(cl, csl, figs, k):
     try:
         st, out = run_cp(cl, csl, figs, k)
-        r = oracle_figs(csl, figs, out, k, st)
+        r = oracle_figs(csl, figs, out, k, st) or CallerLists.rewritten()
         if r or st != 'ok':
             return r
         cp = cl.ChordProgression(list(out))
@@ -484,7 +513,8 @@ def oracle_cp(cl, csl, figs, k):
 def run_ls(ml, cl, lsl, csl, events, figs, op, args, dflt=False, then=None):
     """LeadSheet.transpose (op 'ls', args (k, min, max)) or LeadSheet.squash (op 'lsq', args (min, max, key));
     `then`: a second LeadSheet.transpose amount applied to the same object (round trips)"""
-    ls = lsl.LeadSheet(ml.Melody(list(events)), cl.ChordProgression(list(figs)))
+    src_e, src_f = CallerLists.give(events, figs)
+    ls = lsl.LeadSheet(ml.Melody(src_e), cl.ChordProgression(src_f))
     amount = None
     try:
         if op == 'ls':
@@ -504,6 +534,9 @@ def run_ls(ml, cl, lsl, csl, events, figs, op, args, dflt=False, then=None):
 def oracle_ls(ml, cl, lsl, csl, events, figs, op, args, dflt=False):
     try:
         st, amount, ev, ch = run_ls(ml, cl, lsl, csl, events, figs, op, args, dflt)
+        r = CallerLists.rewritten()
+        if r:
+            return r
         if op == 'ls':
             k, mn, mx = args
         else:
@@ -548,12 +581,16 @@ def oracle_ls(ml, cl, lsl, csl, events, figs, op, args, dflt=False):
 
 
 # ----------------------------------------------------------------------------- histories over objects
-def hist_make(ml, cl, lsl, o):
+def hist_make(ml, cl, lsl, o, ev_list=None, fig_list=None):
+    """build one object FROM THE GIVEN Python lists (the caller's lists: they are handed to the constructors as they
+    are, exactly like `ChordProgression(my_figures)` in a caller's code)"""
+    ev_list = list(o['events']) if ev_list is None and o['type'] != 'cp' else ev_list
+    fig_list = list(o['figures']) if fig_list is None and o['type'] != 'mel' else fig_list
     if o['type'] == 'mel':
-        return ml.Melody(list(o['events']))
+        return ml.Melody(ev_list)
     if o['type'] == 'cp':
-        return cl.ChordProgression(list(o['figures']))
-    return lsl.LeadSheet(ml.Melody(list(o['events'])), cl.ChordProgression(list(o['figures'])))
+        return cl.ChordProgression(fig_list)
+    return lsl.LeadSheet(ml.Melody(ev_list), cl.ChordProgression(fig_list))
 
 
 def hist_state(typ, x):
@@ -565,12 +602,60 @@ def hist_state(typ, x):
     return [int(e) for e in x.melody], list(x.chords)
 
 
-def run_hist(ml, cl, lsl, csl, objects, ops):
-    """the history on the real classes: objects are built, then every operation is applied to the object it names
-    (`deepcopy i` appends copy.deepcopy(objs[i])).  Returns (types, initial states, [(result, states of ALL objects)])"""
+def hist_sources(objects):
+    """the caller's Python lists the objects are built from: object i with `"src": j` (j < i) is built from the very
+    list objects object j was built from (its events list and / or its figures list, whichever both have); every
+    other object from lists of its own.  -> (events list or None, figures list or None) per object"""
+    evs, figs = [], []
+    for i, o in enumerate(objects):
+        j = o.get('src')
+        e = f = None
+        if j is not None and 0 <= j < i:
+            if o['type'] != 'cp' and evs[j] is not None:
+                e = evs[j]
+            if o['type'] != 'mel' and figs[j] is not None:
+                f = figs[j]
+        if e is None and o['type'] != 'cp':
+            e = list(o['events'])
+        if f is None and o['type'] != 'mel':
+            f = list(o['figures'])
+        evs.append(e)
+        figs.append(f)
+    return evs, figs
+
+
+def hist_effective(objects):
+    """the objects with the contents they really get (a shared list carries the contents of the object it came from)"""
+    evs, figs = hist_sources(objects)
+    out = []
+    for o, e, f in zip(objects, evs, figs):
+        q = {'type': o['type']}
+        if e is not None:
+            q['events'] = list(e)
+        if f is not None:
+            q['figures'] = list(f)
+        out.append(q)
+    return out
+
+
+def run_hist_full(ml, cl, lsl, csl, objects, ops):
+    """the history on the real classes: objects are built (from the caller's lists, see hist_sources), then every
+    operation is applied to the object it names (`deepcopy i` appends copy.deepcopy(objs[i])).
+    Returns (types, initial states, [(result, states of ALL objects)], caller-list snapshots: after construction and
+    after every operation, as [(events list or None, figures list or None) per constructed object])"""
     types = [o['type'] for o in objects]
-    objs = [hist_make(ml, cl, lsl, o) for o in objects]
+    evs, figs = hist_sources(objects)
+    given = [(None if e is None else list(e), None if f is None else list(f)) for e, f in zip(evs, figs)]
+
+    def lists_now():
+        return [(None if e is None else list(e), None if f is None else list(f)) for e, f in zip(evs, figs)]
+    objs, build_trace = [], []
+    for o, e, f in zip(objects, evs, figs):
+        objs.append(hist_make(ml, cl, lsl, o, e, f))
+        build_trace.append(([hist_state(t, x) for t, x in zip(types, objs)], lists_now()))
+    run_hist_full.build_trace = build_trace
     first = [hist_state(t, x) for t, x in zip(types, objs)]
+    snaps = [given, lists_now()]
     trace = []
     for op in ops:
         i = op[1]
@@ -595,7 +680,61 @@ def run_hist(ml, cl, lsl, csl, objects, ops):
             except Exception as e:  # pylint: disable=broad-except
                 res = 'err:' + type(e).__name__
         trace.append((res, [hist_state(t, x) for t, x in zip(types, objs)]))
-    return types, first, trace
+        snaps.append(lists_now())
+    return types, first, trace, snaps
+
+
+def run_hist(ml, cl, lsl, csl, objects, ops):
+    return run_hist_full(ml, cl, lsl, csl, objects, ops)[:3]
+
+
+def world_request(csl, objects, ops, first, trace):
+    """the same history for the model's WORLD (Model/C10World.lean): the caller's lists as pools (one entry per
+    distinct Python list), a `b` operation per object naming the lists it is built from, then the operations"""
+    evs, figs = hist_sources(objects)
+    epool, fpool, builds = [], [], []
+    for e, f in zip(evs, figs):
+        ie = jf = '-'
+        if e is not None:
+            ie = next((i for i, x in enumerate(epool) if x is e), None)
+            if ie is None:
+                epool.append(e)
+                ie = len(epool) - 1
+        if f is not None:
+            jf = next((i for i, x in enumerate(fpool) if x is f), None)
+            if jf is None:
+                fpool.append(f)
+                jf = len(fpool) - 1
+        builds.append('b %s %s' % (ie, jf))
+    texts = {f for _, states in [('', first)] + list(trace) for _, fs in states for f in fs if f != 'N.C.'}
+    w = {'deepcopy': 'd', 'transpose': 't', 'squash': 's'}
+    req = 'world %s %s %s %s' % (table_tokens(csl, texts), wl(wl(x) for x in epool), wl(wl(hx(t) for t in x) for x in fpool),
+                                 wl(builds + [' '.join([w[op[0]]] + [str(x) for x in op[1:]]) for op in ops]))
+    return req, [id(x) for x in epool], [id(x) for x in fpool]
+
+
+def world_show(objects, trace, snaps, build_trace):
+    """what the real classes and the caller's real lists hold after every construction and every operation"""
+    evs, figs = hist_sources(objects)          # (only for the pooling: which objects share a list)
+    eidx, fidx = [], []
+    for i, (e, f) in enumerate(zip(evs, figs)):
+        if e is not None and not any(evs[j] is e for j in eidx):
+            eidx.append(i)
+        if f is not None and not any(figs[j] is f for j in fidx):
+            fidx.append(i)
+
+    def lists(snap, given):
+        # a list not handed over yet still holds what the caller put into it
+        ev = [(snap[i] if i < len(snap) else given[i])[0] for i in eidx]
+        fg = [(snap[i] if i < len(snap) else given[i])[1] for i in fidx]
+        return ' | '.join(wl(x) for x in ev) + ' # ' + ' | '.join(wl(hx(t) for t in x) for x in fg)
+
+    def objs(states):
+        return ' | '.join('%s %s' % (wl(ev), wl(hx(f) for f in fs)) for ev, fs in states)
+    given = snaps[0]
+    out = ['ok ; %s ## %s' % (objs(states), lists(snap, given)) for states, snap in build_trace]
+    out += ['%s ; %s ## %s' % (res, objs(states), lists(snap, given)) for (res, states), snap in zip(trace, snaps[2:])]
+    return ' || '.join(out)
 
 
 def hist_show(trace):
@@ -631,10 +770,29 @@ def oracle_hist(ml, cl, lsl, csl, objects, ops):
     amount (melody into the range, every chord's root / bass / pitch classes by k modulo 12, quality kept), a deep
     copy equals its source, and every object the operation was NOT applied to is exactly what it was before"""
     try:
-        types, prev, trace = run_hist(ml, cl, lsl, csl, objects, ops)
+        types, prev, trace, snaps = run_hist_full(ml, cl, lsl, csl, objects, ops)
     except Exception as e:  # pylint: disable=broad-except
         return 'implementation raised %s: %s' % (type(e).__name__, e)
     try:
+        # construction: every object holds what the list it was built from held, and the caller's lists - which the
+        # caller goes on using, here: to build further objects from - are never rewritten, neither by a constructor
+        # nor by any later operation on an object built from them
+        eff = hist_effective(objects)
+        for i, (o, st) in enumerate(zip(eff, prev)):
+            ev = o.get('events', [])
+            lead = [e for e in ev if e != -1][:1]
+            if lead == [-2] or any(not -2 <= e <= 127 for e in ev):
+                ev = st[0]          # (the Melody constructor itself rewrites a leading note-off / rejects other values)
+            if st != (ev, o.get('figures', [])):
+                return 'construction: object %d built from events %r / figures %r holds %r / %r' % (
+                    i, o.get('events', []), o.get('figures', []), st[0], st[1])
+        given = snaps[0]
+        for n, now in enumerate(snaps[1:]):
+            for i, (g, c) in enumerate(zip(given, now)):
+                if g != c:
+                    what = 'construction' if n == 0 else 'step %d (%s of object %d)' % (n, ops[n - 1][0], ops[n - 1][1])
+                    return ('%s: the caller\'s Python list object %d was constructed from was rewritten: events %r -> %r, '
+                            'figures %r -> %r' % (what, i, g[0], c[0], g[1], c[1]))
         for n, (op, (res, states)) in enumerate(zip(ops, trace)):
             i = op[1]
             what = 'step %d (%s of object %d%s)' % (n + 1, op[0], i, '' if op[0] == 'deepcopy' else ' ' + ' '.join(map(str, op[2:])))
@@ -679,6 +837,10 @@ HIST_PATTERNS = ['copy-transposed', 'original-transposed', 'both-transposed', 'c
                  'copy-of-copy', 'random']
 
 
+SHARED_PATTERNS = ['shared-list:one-transposed', 'shared-list:one-then-the-other', 'shared-list:there-and-back',
+                   'shared-list:with-copies', 'shared-list:squash']
+
+
 def gen_hist(rng, csl, ml, kinds):
     """objects + a history: deepcopy (of a LeadSheet, a Melody, a ChordProgression), then transpose / squash one of
     the two objects (or both, or the copy there and back, or a copy of the copy), mostly by an everyday interval"""
@@ -701,8 +863,21 @@ def gen_hist(rng, csl, ml, kinds):
     if rng.random() < 0.25:
         objects.insert(rng.randrange(2), obj(rng.choice(['ls', 'mel', 'cp'])))
     a = objects.index(next(o for o in objects if o['type'] == typ))
+    # a second object built from the SAME Python list(s) as object a (the caller reuses its list of figures / events)
+    c = None
+    if rng.random() < 0.4:
+        t2 = rng.choice({'cp': ['cp', 'cp', 'ls'], 'mel': ['mel', 'mel', 'ls'], 'ls': ['ls', 'ls', 'cp', 'cp', 'mel']}[typ])
+        o2 = obj(t2)
+        for fld in ('events', 'figures'):
+            if fld in o2 and fld in objects[a]:
+                o2[fld] = list(objects[a][fld])
+        o2['src'] = a
+        objects.append(o2)
+        c = len(objects) - 1
     b = len(objects)
     pat = rng.choice(HIST_PATTERNS)
+    if c is not None and rng.random() < 0.7:
+        pat = rng.choice(SHARED_PATTERNS)
     if pat == 'copy-squashed' and typ == 'cp':
         pat = 'copy-transposed'
     key = rng.randrange(12)
@@ -717,6 +892,21 @@ def gen_hist(rng, csl, ml, kinds):
         ops = [['deepcopy', a], T(b, k), T(b, -k)]
     elif pat == 'copy-squashed':
         ops = [['deepcopy', a], ['squash', b, mn, mx, key]] + ([T(a, k)] if rng.random() < 0.5 else [])
+    elif pat == 'shared-list:one-transposed':
+        ops = [T(rng.choice([a, c]), k)]
+    elif pat == 'shared-list:one-then-the-other':
+        x, y = rng.choice([(a, c), (c, a)])
+        ops = [T(x, k), T(y, k)] + ([T(y, -k)] if rng.random() < 0.4 else [])
+    elif pat == 'shared-list:there-and-back':
+        x = rng.choice([a, c])
+        ops = [T(x, k), T(x, -k), T(a + c - x, rng.choice([k, 12, -k]))]
+    elif pat == 'shared-list:with-copies':
+        x, y = rng.choice([(a, c), (c, a)])
+        ops = [['deepcopy', x], T(x, k), ['deepcopy', y], T(b + 1, k), T(y, k)]
+    elif pat == 'shared-list:squash':
+        x, y = rng.choice([(a, c), (c, a)])
+        tys = [o['type'] for o in objects]
+        ops = [['squash', x, mn, mx, key] if tys[x] != 'cp' else T(x, k), T(y, k)]
     elif pat == 'copy-of-copy':
         ops = [['deepcopy', a], ['deepcopy', b], T(rng.choice([a, b, b + 1]), k), T(rng.choice([a, b, b + 1]), rng.choice([k, -k, 12]))]
     else:
@@ -732,7 +922,8 @@ def gen_hist(rng, csl, ml, kinds):
                 ops.append(T(i, rng.choice([k, k, -k, 12, gen_k(rng)])))
             else:
                 ops.append(['squash', i, mn, mx, key])
-    return objects, ops, [pat, 'object:' + typ] + (['two-unrelated-objects'] if len(objects) > 1 else [])
+    return objects, ops, [pat, 'object:' + typ] + (['two-unrelated-objects'] if len([o for o in objects if 'src' not in o]) > 1 else []) + (
+        ['two-objects-from-one-list:%s+%s' % (typ, objects[c]['type'])] if c is not None else [])
 
 
 class _FakeRandom:
@@ -1177,7 +1368,11 @@ def run(chk):
                 'point also as the caller can reach it: transpose_note_sequence in_place=True and with the default range, '
                 'Melody/LeadSheet.transpose with the default range, note_seq.transpose_chord_symbol; (6) histories over objects: '
                 'copy.deepcopy of a LeadSheet / Melody / ChordProgression, then transpose or squash of the copy, of the original, of both, '
-                'there and back, copies of copies, random mixes - all objects compared with the model heap after every operation. '
+                'there and back, copies of copies, random mixes - all objects compared with the model heap after every operation; '
+                '40%% with a second object built from the SAME Python list(s) (ChordProgression + LeadSheet chords, two progressions, '
+                'Melody + LeadSheet melody ...): one transposed / squashed, then the other, there and back, with copies - the '
+                'caller\'s lists and all objects compared with the model world (Model/C10World.lean) after every construction and '
+                'operation; every constructor call of the other streams is handed a caller\'s list that must survive unchanged. '
                 'non-trivial = distinct request answered by the model (not bad-op)'
                 % (len(MODS), len(BASSES)))
     kinds = list(csl._CHORD_KINDS_BY_ABBREV)
@@ -1209,6 +1404,10 @@ def run(chk):
         elif obj.get('kind') == 'hist':
             _, first, trace = run_hist(ml, cl, lsl, csl, obj['objects'], obj['ops'])
             B.add('corpus', hist_request(csl, obj['objects'], obj['ops'], first, trace), hist_show(trace), 'm:' + name, 'hist-model', replay=obj)
+            if all(r != 'no-object' for r, _ in trace) and any('src' in o for o in obj['objects']):
+                _, _, _, snaps = run_hist_full(ml, cl, lsl, csl, obj['objects'], obj['ops'])
+                B.add('corpus', world_request(csl, obj['objects'], obj['ops'], first, trace)[0],
+                      world_show(obj['objects'], trace, snaps, run_hist_full.build_trace), 'w:' + name, 'world-model', replay=obj)
         elif obj.get('kind') == 'mel':
             B.add('corpus', 'mel %d %d %d %s' % (obj['k'], obj['min'], obj['max'], wl(obj['events'])),
                   'ok ' + wl(run_melody(ml, obj['events'], obj['k'], obj['min'], obj['max'], obj.get('defaults', False))), 'm:' + name, 'mel-model', replay=obj)
@@ -1410,6 +1609,10 @@ def run(chk):
         types, first, trace = run_hist(ml, cl, lsl, csl, objects, ops)
         res = sorted({'result:' + r.split(':')[0] + (':' + r.split(':')[1] if r.startswith('err') else '') for r, _ in trace})
         B.add('object_histories', hist_request(csl, objects, ops, first, trace), hist_show(trace), repr(rp), tags + res, replay=rp)
+        if all(r != 'no-object' for r, _ in trace):
+            _, _, _, snaps = run_hist_full(ml, cl, lsl, csl, objects, ops)
+            B.add('object_histories_with_caller_lists', world_request(csl, objects, ops, first, trace)[0],
+                  world_show(objects, trace, snaps, run_hist_full.build_trace), 'w' + repr(rp), tags + res, replay=rp)
         r = oracle_hist(ml, cl, lsl, csl, objects, ops)
         chk.count('oracle', None)
         if r:
